@@ -361,4 +361,75 @@ theorem legacy_nonObject_escapes :
     (listAll .legacy (faultAt 2 (.resp 200 .nonObject) (healthy exLib 1)) 9 {}).1 =
       .error (.other "AttributeError") ∧ (Err.other "AttributeError").family = false := by decide +kernel
 
+/-! ## The translated `FileFilter.matches` itself (end to end)
+
+`Props/C18_Src.lean` proves the `FileFilter.matches` re-translated from `client.py` on every run equal
+to the model's `matchesF`; composed with `C18_matches_iff`, the documented filter semantics is a
+statement about the method **as the source has it now**: for every host (`str.lower`, `fnmatch`, a
+`fromisoformat` raising only `ValueError`), every filter and every metadata object within `DatesOk` it
+never raises and answers `True` exactly for the files the specification describes; the folder list
+takes no part in it, and a filter without criteria accepts every file. -/
+section src
+open S2T.Py S2T.Gen.PyClient S2T.C18.Src
+
+
+/-- **C18 at the source level (filter semantics).** -/
+theorem C18_src_matches_iff (env : SpEnv) (f : FileFilter) (fm : SpFileMeta) (hV : IsoRaisesValueError env)
+    (hD : DatesOk env fm) :
+    (FileFilter.matches env f fm = .ok true ↔
+        SpecMatches (isoOf env) env.lower env.fnmatch (filterOf f) (metaOf fm)) ∧
+    (∃ b, FileFilter.matches env f fm = .ok b) := by
+  rw [matches_eq env f fm hV hD]
+  refine ⟨?_, ⟨_, rfl⟩⟩
+  rw [← C18_matches_iff]
+  constructor
+  · intro h; simpa [pure, Except.pure] using h
+  · intro h; rw [h]; rfl
+
+/-- **C18 at the source level (the folder list does not take part in `matches`; an empty filter accepts).** -/
+theorem C18_src_folders_irrelevant (env : SpEnv) (f : FileFilter) (folders : List Py.Str) (fm : SpFileMeta)
+    (hV : IsoRaisesValueError env) (hD : DatesOk env fm) :
+    FileFilter.matches env { f with folderPaths := folders } fm = FileFilter.matches env f fm := by
+  rw [matches_eq env f fm hV hD, matches_eq env _ fm hV hD]
+  rfl
+
+theorem C18_src_empty_filter_accepts (env : SpEnv) (folders : List Py.Str) (fm : SpFileMeta)
+    (hV : IsoRaisesValueError env) (hD : DatesOk env fm) :
+    FileFilter.matches env ⟨none, none, none, none, folders, [], []⟩ fm = .ok true := by
+  apply (C18_src_matches_iff env _ fm hV hD).1.mpr
+  unfold SpecMatches
+  refine ⟨?_, ?_, Or.inl rfl, Or.inl rfl⟩ <;> simp [filterOf, DateIn]
+
+/-! ### Non-vacuity -/
+private theorem toyEnv_iso : IsoRaisesValueError toyEnv := by
+  intro s e h
+  simp only [toyEnv] at h
+  split at h
+  · cases h
+  · cases h; rfl
+
+private theorem toyEnv_dates (fm : SpFileMeta) : DatesOk toyEnv fm := by
+  have hw : ∀ s, WholeSecond toyEnv s := by
+    intro s a d _ h
+    simp only [toyEnv] at h
+    split at h
+    · cases h; decide
+    · cases h
+  exact ⟨fun s _ => hw s, fun s _ => hw s⟩
+
+/-- a file the toy host dates 2024-01-15 -/
+def toyFile : SpFileMeta := ⟨"a.docx".toList, "1".toList, some "2024-01-15T10:00:00Z".toList, none, some "docs".toList⟩
+
+example : FileFilter.matches toyEnv ⟨none, none, none, none, [], [], [".pdf".toList]⟩ toyFile = .ok false := by
+  rw [matches_eq toyEnv _ toyFile toyEnv_iso (toyEnv_dates _)]
+  exact congrArg Except.ok (by decide +kernel)
+example : FileFilter.matches toyEnv ⟨some ⟨1705312800000000⟩, none, none, none, ["x".toList], [], [".docx".toList]⟩ toyFile
+    = .ok true := by
+  rw [matches_eq toyEnv _ toyFile toyEnv_iso (toyEnv_dates _)]
+  exact congrArg Except.ok (by decide +kernel)
+example : FileFilter.matches toyEnv ⟨none, some ⟨1705312800000000⟩, none, none, [], [], []⟩ toyFile = .ok false := by
+  rw [matches_eq toyEnv _ toyFile toyEnv_iso (toyEnv_dates _)]
+  exact congrArg Except.ok (by decide +kernel)
+end src
+
 end S2T.C18
